@@ -225,6 +225,20 @@ def chainId (o : KeyObj K P) : AddrId P := .key o.pub (idClass o.typ) true
 
 /-- allocate the objects of one `nextAddresses`/`extendAddresses` call, write their rows, cache them and (when
     `toDou`) queue them for derive-on-unlock.  Returns the new state, the rows and the heap indices. -/
+def setNext (row : AcctRow K P) (internal : Bool) (n : Nat) : AcctRow K P :=
+  match row with
+  | .dflt pub priv ne ni name => if internal then .dflt pub priv ne n name else .dflt pub priv n ni name
+  | .wo pub fp ne ni name schema ci =>
+    if internal then .wo pub fp ne n name schema ci else .wo pub fp n ni name schema ci
+
+/-- `putChainedAddress` also rewrites the account row with `index + 1` as next index of the branch -/
+def bumpAcctRow (sc : Scope) (sd : ScopeDisk K P) (acct branch index : Nat) : ScopeDisk K P × List Row :=
+  match alookup sd.accts acct with
+  | some row =>
+    let row' := setNext row (branch == 1) (index + 1)
+    ({ sd with accts := aset sd.accts acct row' }, [acctRowPut sc acct row'])
+  | none => (sd, [])
+
 def issueAll (sc : Scope) (toDou : Bool) :
     List (KeyObj K P) → State K P → List Row → List Nat → State K P × List Row × List Nat
   | [], s, rows, idxs => (s, rows, idxs)
@@ -234,38 +248,30 @@ def issueAll (sc : Scope) (toDou : Bool) :
       let (s1, idx) := alloc s (.key o)
       let id := chainId o
       let row := AddrRow.chain o.acct o.branch o.index
-      let sd' := { sd with addrs := aset sd.addrs id row }
+      let (sd0, arows) := bumpAcctRow sc { sd with addrs := aset sd.addrs id row } o.acct o.branch o.index
+      let sd' := sd0
       let sm' := { sm with addrs := aset sm.addrs id idx,
                            dou := if toDou then sm.dou ++ [(idx, o.branch, o.index)] else sm.dou }
       let s2 := putSM (putSD s1 sc sd') sc sm'
-      issueAll sc toDou rest s2 (rows ++ addrRowPuts sc id row) (idxs ++ [idx])
+      issueAll sc toDou rest s2 (rows ++ addrRowPuts sc id row ++ arows) (idxs ++ [idx])
     | _, _ => (s, rows, idxs)
 
 def bindAll : List Nat → Nat → State K P → State K P
   | [], _, s => s
   | idx :: t, h, s => bindAll t (h + 1) (bindH s h idx)
 
-def setNext (row : AcctRow K P) (internal : Bool) (n : Nat) : AcctRow K P :=
-  match row with
-  | .dflt pub priv ne ni name => if internal then .dflt pub priv ne n name else .dflt pub priv n ni name
-  | .wo pub fp ne ni name schema ci =>
-    if internal then .wo pub fp ne n name schema ci else .wo pub fp n ni name schema ci
-
-/-- common tail of next/extend: objects → state; updates the account row (disk) and the cached next index -/
+/-- common tail of next/extend: objects → state; the cached next index follows -/
 def commitIssue (s : State K P) (sc : Scope) (acct : Nat) (internal : Bool) (toDou : Bool)
     (objs : List (KeyObj K P)) (newNext : Nat) : State K P × List Row × List Nat :=
   let (s1, rows, idxs) := issueAll sc toDou objs s [] []
-  match getSM s1 sc, getSD s1 sc with
-  | some sm, some sd =>
-    match alookup sd.accts acct, alookup sm.acctInfo acct with
-    | some row, some ai =>
-      let row' := setNext row internal newNext
+  match getSM s1 sc with
+  | some sm =>
+    match alookup sm.acctInfo acct with
+    | some ai =>
       let ai' := if internal then { ai with nextInt := newNext } else { ai with nextExt := newNext }
-      let s2 := putSD s1 sc { sd with accts := aset sd.accts acct row' }
-      let s3 := putSM s2 sc { sm with acctInfo := aset sm.acctInfo acct ai' }
-      (s3, rows ++ [acctRowPut sc acct row'], idxs)
-    | _, _ => (s1, rows, idxs)
-  | _, _ => (s1, rows, idxs)
+      (putSM s1 sc { sm with acctInfo := aset sm.acctInfo acct ai' }, rows, idxs)
+    | none => (s1, rows, idxs)
+  | none => (s1, rows, idxs)
 
 def mkAll (hd : HD K P) (sc : Scope) (acct : Nat) (ai : AcctInfo K P) (usePriv : Bool) (b : Nat)
     (typ : AddrType) (acctChild fp : Nat) : List Nat → Option (List (KeyObj K P))
@@ -412,12 +418,12 @@ def opDerive (hd : HD K P) (s : State K P) (sc : Scope) (acct acctChild b i : Na
           (bindH (putSM s1 sc sm2) h idx, .addr (infoOfKey o), [])
 
 /-- `MarkUsed` -/
-def opMarkUsed (s : State K P) (sc : Scope) (id : AddrId P) : State K P × Res K × List Row :=
+def opMarkUsed (s : State K P) (sc : Scope) (id : AddrId P) (desc : String) : State K P × Res K × List Row :=
   match getSM s sc, getSD s sc with
   | some sm, some sd =>
     let keySym := match alookup sd.addrs id with
       | some r => addrKeySym sc id r
-      | none => Sym.sha (.pubdata "aid:?")
+      | none => Sym.sha (.pubdata ("aid:" ++ desc))
     let (sd', rows) :=
       if sd.used.contains id then (sd, [])
       else ({ sd with used := id :: sd.used }, [{ path := scPath sc "usedaddrs", key := keySym, val := .plain "0" : Row }])
